@@ -425,8 +425,24 @@ func genPattern(r *vlib.Rand, mask uint8) []rune {
 	return pat
 }
 
+// fmtChecker round-trips patterns. loc is the process's local zone at the time of the call
+// (nil = UTC): Parse builds the instant in that zone, so the instant is formatted there too.
+// The calendar oracle stays in UTC: the local wall clock of an instant x is oracle(x+off(x)),
+// with off(x) the zone offset the standard library's zone database gives for x.
 type fmtChecker struct {
-	k *checker
+	k     *checker
+	loc   *time.Location
+	fixed bool // loc has one offset over the whole century (no transitions)
+}
+
+// wallMs returns x shifted by loc's offset at x: the UTC instant whose UTC fields are the local
+// wall-clock fields of x.
+func (fc *fmtChecker) wallMs(x int64) int64 {
+	if fc.loc == nil {
+		return x
+	}
+	_, off := time.UnixMilli(x).In(fc.loc).Zone()
+	return x + int64(off)*1000
 }
 
 // roundTrip formats t with df (pattern pat), parses the text back with the same pattern and
@@ -434,7 +450,34 @@ type fmtChecker struct {
 func (fc *fmtChecker) roundTrip(df *dateutil.DateFormat, pat []rune, class string, mask uint8, t int64) string {
 	k := fc.k
 	o := oracle(t)
-	text := df.FormatTime(time.UnixMilli(t).UTC())
+	tm := time.UnixMilli(t).UTC()
+	if fc.loc != nil {
+		// an explicit time.Time carries its own location: FormatTime of the UTC value must not
+		// depend on the process's zone
+		if text, exp := df.FormatTime(tm), refFormat(pat, o); text != exp {
+			k.fail("DateFormat:format-differs", func() (string, interface{}) {
+				return fmt.Sprintf("pattern %q with local zone %s: FormatTime(%s) = %q, field-by-field rendering is %q", string(pat), fc.loc, isoTime(t), text, exp),
+					map[string]interface{}{"pattern": string(pat), "t_ms": t, "utc": isoTime(t), "got": text, "expected": exp, "zone": fc.loc.String()}
+			})
+			return text
+		}
+		k.cnt["state_format_of_utc_time_under_other_zone"]++
+		tm = time.UnixMilli(t).In(fc.loc)
+		o = oracle(fc.wallMs(t))
+		if class != "full" && !fc.fixed {
+			// a defaulted lower-order field can fall into a zone transition and renormalise
+			// the fields present; only the formatting is checked
+			if text, exp := df.FormatTime(tm), refFormat(pat, o); text != exp {
+				k.fail("DateFormat:format-differs", func() (string, interface{}) {
+					return fmt.Sprintf("pattern %q in zone %s: FormatTime(%s) = %q, field-by-field rendering of the local wall clock is %q", string(pat), fc.loc, isoTime(t), text, exp),
+						map[string]interface{}{"pattern": string(pat), "t_ms": t, "utc": isoTime(t), "got": text, "expected": exp, "zone": fc.loc.String()}
+				})
+			}
+			k.cnt["state_partial_pattern_format_only_in_zone_with_transitions"]++
+			return ""
+		}
+	}
+	text := df.FormatTime(tm)
 	if exp := refFormat(pat, o); text != exp {
 		k.fail("DateFormat:format-differs", func() (string, interface{}) {
 			return fmt.Sprintf("pattern %q: FormatTime(%s) = %q, field-by-field rendering is %q", string(pat), isoTime(t), text, exp),
@@ -455,13 +498,19 @@ func (fc *fmtChecker) roundTrip(df *dateutil.DateFormat, pat []rune, class strin
 	bad := ""
 	if class == "full" {
 		if p != t {
-			bad = fmt.Sprintf("parsed instant %d [%s] != %d", p, isoTime(p), t)
+			// in a zone with transitions a wall-clock time can name two instants (clocks set
+			// back): either is a correct parse, the wall clock itself must be the same
+			if fc.loc != nil && !fc.fixed && fc.wallMs(p) == fc.wallMs(t) {
+				k.cnt["state_parse_chose_other_instant_of_repeated_wall_clock"]++
+			} else {
+				bad = fmt.Sprintf("parsed instant %d [%s] != %d", p, isoTime(p), t)
+			}
 		}
 	} else {
 		if p < baseMs-400*msDay || p > endMs+400*msDay {
 			bad = fmt.Sprintf("parsed instant %d is outside any plausible range", p)
 		} else {
-			po := oracle(p)
+			po := oracle(fc.wallMs(p))
 			for r := 0; r < 7 && bad == ""; r++ {
 				if mask&(1<<uint(r)) == 0 {
 					continue
@@ -487,7 +536,7 @@ func (fc *fmtChecker) roundTrip(df *dateutil.DateFormat, pat []rune, class strin
 	if bad != "" {
 		k.fail("DateFormat:parse-not-inverse/"+class, func() (string, interface{}) {
 			return fmt.Sprintf("pattern %q: Format(%s) = %q, Parse of that: %s", string(pat), isoTime(t), text, bad),
-				map[string]interface{}{"pattern": string(pat), "class": class, "t_ms": t, "utc": isoTime(t), "text": text, "parsed_ms": p, "parsed_utc": isoTime(p)}
+				map[string]interface{}{"pattern": string(pat), "class": class, "t_ms": t, "utc": isoTime(t), "text": text, "parsed_ms": p, "parsed_utc": isoTime(p), "zone": time.Local.String()}
 		})
 	}
 	return text
@@ -576,7 +625,7 @@ func main() {
 	}
 
 	k := newChecker(c)
-	fc := &fmtChecker{k}
+	fc := &fmtChecker{k: k}
 	full := c.Only == ""
 
 	// ---- every day of the century ------------------------------------------------------
@@ -745,7 +794,15 @@ func main() {
 	})
 	k.flush()
 
+	// ---- the same slices under non-default process-wide state (state.go) -----------------
+	st := newStater(c, k)
+	st.sequential(c.N(18*16, 18*16*8))
+	st.parallel(c.N(3, 12), 4*16)
+	st.syncMode(c.N(16, 64)) // last: leaves the package in sync-time mode
+	k.flush()
+
 	if c.Shard == 0 {
+		c.Note("process-wide state: the correction set by SetDelta/SetServerTime, the local zone and the sync-time mode are varied in the state* sections; helpers with an explicit instant keep the UTC oracle, Now/TimeStampNow/YmdNow/GetDateUnitNow are bracketed by SystemNow()+correction read before and after the call; DateFormat is formatted and parsed in the local zone (oracle: UTC calendar of instant+offset, offset from the standard library's zone database), partial patterns only in zones without transitions")
 		c.Note("weekday labels are compared as day indices (Monday=0, identified by the first two letters of the English name); the helper spells Thursday \"Thr\" — recorded in weekday_labels, not a calendar disagreement")
 		c.Note("partial patterns: Parse documents that absent fields default to the current time, so only the fields present are compared, and only for field sets whose defaults cannot disturb them (the k highest-order fields; time fields only). The property's 'truncated to the fields present' reading is not demanded for absent fields")
 	}
@@ -755,6 +812,22 @@ func main() {
 		c.Floor("instants_with_millis_below_100", 500, c.Counter("instants_with_millis_below_100"))
 		c.Floor("format_parse_round_trips", 2000, c.Counter("format_parse_round_trips"))
 		c.Floor("unit_changes_seen_across_1ms_GetMinUnit", 1000, c.Counter("unit_changes_seen_across_1ms_GetMinUnit"))
+		// process-wide state (per shard: 18 cases of about 1600 instants, 2 per correction value)
+		for _, cr := range corrections {
+			c.Floor("state_instants_correction_"+cr.label, 300, c.Counter("state_instants_correction_"+cr.label))
+		}
+		for _, sn := range setterNames {
+			c.Floor("state_instants_setter_"+sn, 1400, c.Counter("state_instants_setter_"+sn))
+		}
+		for _, zn := range zoneNames {
+			c.Floor("state_instants_zone_"+zn, 150, c.Counter("state_instants_zone_"+zn))
+		}
+		c.Floor("state_instants_with_nonzero_correction", 2800, c.Counter("state_instants_with_nonzero_correction"))
+		c.Floor("state_instants_where_the_correction_crosses_a_step_edge_GetDateUnit", 500, c.Counter("state_instants_where_the_correction_crosses_a_step_edge_GetDateUnit"))
+		c.Floor("state_format_parse_round_trips", 300, c.Counter("state_format_parse_round_trips"))
+		c.Floor("state_now_helper_calls_bracketed", 50, c.Counter("state_now_helper_calls_bracketed"))
+		c.Floor("state_instants_checked_by_concurrent_callers", 2000, c.Counter("state_instants_checked_by_concurrent_callers"))
+		c.Floor("state_sync_instants_checked_while_the_ticker_runs", 150, c.Counter("state_sync_instants_checked_while_the_ticker_runs"))
 	}
 	c.Finish()
 }
